@@ -50,6 +50,9 @@ def validate(chk, wd, traces, tag="v"):
         mism, states = {}, {}
         for _, cid, step, ev, clauses in r.tuples("MISMATCH"):
             mism.setdefault(cid, []).append((step, ev, clauses))
+        for _ in r.tuples("UNJUDGED"):
+            chk.cov["unjudged"] += 1
+            chk.note("solutions_with_numerals_beyond_32_bits")
         for _, cid, st in r.tuples("STATE"):
             states[cid] = st
         for _, cid, steps, verdict in r.tuples("TRACE"):
@@ -91,6 +94,17 @@ def formula_cases(chk, plan, calls, rnd, per_formula=1):
             for _ in range(per_formula):
                 cases.append({"grammar": name, "g": pj.grammar_to_json(g), "fam": fam, "text": F.text(ast), "phi": ast,
                               "settings": random_settings(rnd), "calls": calls, "seed": rnd.randrange(1000), "ticks": []})
+            hand = fam in {f for f, _ in catalogue.hand_formulas(name)}
+            if hand and ast["op"] in ("and", "forall", "exists"):
+                # the unsat-support probe with several free instantiations (conjunctions with an existential are where it matters)
+                st = dict(random_settings(rnd), activate_unsat_support=True, tree_insertion_methods=0, max_number_free_instantiations=3)
+                cases.append({"grammar": name, "g": pj.grammar_to_json(g), "fam": fam, "text": F.text(ast), "phi": ast,
+                              "settings": st, "calls": calls, "seed": rnd.randrange(1000), "ticks": []})
+            if hand and ast["op"] in ("forall", "exists") and ast["ty"] != "<start>" and ast["in"] == "start":
+                # a requested start symbol: the quantified element is the root itself
+                st = dict(random_settings(rnd), start_symbol=ast["ty"])
+                cases.append({"grammar": name, "g": pj.grammar_to_json(g), "fam": fam + "@start=" + ast["ty"], "text": F.text(ast), "phi": ast,
+                              "settings": st, "calls": calls, "seed": rnd.randrange(1000), "ticks": []})
         cases.append({"grammar": name, "g": pj.grammar_to_json(g), "fam": "no-constraint", "text": None, "phi": {"op": "true"},
                       "settings": random_settings(rnd), "calls": calls, "seed": rnd.randrange(1000), "ticks": []})
     for i, c in enumerate(cases):
